@@ -26,7 +26,7 @@ def correspondence(ctx):
     acc = (lambda p: p['style'] in styles) if styles else None
     r = FL.correspondence(ctx, PID, kw, 60, 1500, accept=acc, extra_progs=designed(ctx.rng, ctx.n(6, 100)))
     # the plugin layer: scripts come from the settings text, episodes also end with the print, pause / resume must not touch them
-    PS.merge_into(r, ctx, PID.lower() + 'p', 25, 500, extra=[PS.ext_edit_history(ctx.rng) for _ in range(ctx.n(15, 300))])
+    PS.merge_into(r, ctx, PID.lower() + 'p', 25, 500, extra=[PS.ext_edit_history(ctx.rng) for _ in range(ctx.n(15, 300))] + [PS.pause_history(ctx.rng) for _ in range(ctx.n(8, 150))])
     return r
 
 
@@ -36,7 +36,7 @@ def oracle(ctx, budget=1, replay=None, hints=None):
     r = FL.oracle(ctx, PID, [O.check_C06], kw, 150 * budget, accept=acc, replay=replay, extra_progs=designed(ctx.rng, 10 * budget))
     n = 40 * budget
     for _ in range(n):
-        h = PS.gen_history(ctx.rng)
+        h = PS.gen_history(ctx.rng) if _ % 4 else PS.pause_history(ctx.rng)
         f = PO.run_history(h, ('C06',))
         if f and len(r['failures']) < 10:
             r['failures'].append(f[0])
